@@ -46,7 +46,12 @@ fn fwd(op: &Op, _ctx: &dyn Context, operands: &mut dyn CoordinateSet) -> usize {
             .atan()
             - FRAC_PI_2;
 
-        let lam_p = c * (lam - lam_0);
+        // (the longitude difference within ±180°, also across the antimeridian)
+        let mut dlam = lam - lam_0;
+        if dlam.abs() > std::f64::consts::PI {
+            dlam = angular::normalize_symmetric(dlam);
+        }
+        let lam_p = c * dlam;
         let (sin_lam_p, cos_lam_p) = lam_p.sin_cos();
         let (sin_phi_p, cos_phi_p) = phi_p.sin_cos();
 
